@@ -15,9 +15,11 @@ Import ListNotations.
 From BD.Hist Require Import GoMatch Model.
 Open Scope string_scope.
 
-Record skey := { k_dag : string; k_stamp : string; k_r8 : string; k_c : bool }.
+(* k_tmp: the temporary copy <name>.tmp that Close writes before it publishes the compacted file with a rename (eb925d1) *)
+Record skey := { k_dag : string; k_stamp : string; k_r8 : string; k_c : bool; k_tmp : bool }.
 Definition skey_eqb (a b : skey) : bool :=
-  String.eqb (k_dag a) (k_dag b) && String.eqb (k_stamp a) (k_stamp b) && String.eqb (k_r8 a) (k_r8 b) && Bool.eqb (k_c a) (k_c b).
+  String.eqb (k_dag a) (k_dag b) && String.eqb (k_stamp a) (k_stamp b) && String.eqb (k_r8 a) (k_r8 b) && Bool.eqb (k_c a) (k_c b)
+  && Bool.eqb (k_tmp a) (k_tmp b).
 Definition sent := (skey * file)%type.
 Record sfs := { sdirs : list string; sfiles : list sent }.
 Definition sfs_empty : sfs := {| sdirs := []; sfiles := [] |}.
@@ -88,8 +90,9 @@ Variable kname : skey -> string.       (* the rendered file name: decides the or
 Variable kpath : skey -> string.       (* the rendered full path: decides the scan order of FindByRequestID *)
 
 Inductive patk := PAll | PLatest (day : option string).
+(* every pattern ends in .dat: a temporary copy (.dat.tmp) is matched by none *)
 Definition in_patk (pk : patk) (k : skey) : bool :=
-  match pk with PLatest (Some day) => String.eqb (take 8 (k_stamp k)) day | _ => true end.
+  negb (k_tmp k) && match pk with PLatest (Some day) => String.eqb (take 8 (k_stamp k)) day | _ => true end.
 (* the glob of one DAG's files: nothing when the directory is missing; the directory is listed in byte order
    of the names, then the pattern selects (same structure as filepath.Glob / Model.glob) *)
 Definition sglob (st : sfs) (d : string) (pk : patk) : list sent :=
@@ -100,8 +103,17 @@ Definition sglob (st : sfs) (d : string) (pk : patk) : list sent :=
   else [].
 
 Definition sts_of (e : sent) : string := k_stamp (fst e).     (* what the anchored regexp sees: the start stamp with milliseconds *)
+Definition mkkey (d stamp r8 : string) (c : bool) : skey := {| k_dag := d; k_stamp := stamp; k_r8 := r8; k_c := c; k_tmp := false |}.
+Definition twin (k : skey) : skey := mkkey (k_dag k) (k_stamp k) (k_r8 k) true.
+Definition tmpk (k : skey) : skey := {| k_dag := k_dag k; k_stamp := k_stamp k; k_r8 := k_r8 k; k_c := k_c k; k_tmp := true |}.
+Definition rekey (d' : string) (k : skey) : skey :=
+  {| k_dag := d'; k_stamp := k_stamp k; k_r8 := k_r8 k; k_c := k_c k; k_tmp := k_tmp k |}.
+(* dropCompacted (eb925d1): an uncompacted file whose compacted twin is among the matches is dropped *)
+Definition sdropped (l : list sent) (e : sent) : bool :=
+  negb (k_c (fst e)) && existsb (fun m => skey_eqb (twin (fst e)) (fst m)) l.
+Definition sdrop_compacted (l : list sent) : list sent := filter (fun e => negb (sdropped l e)) l.
 Definition sfilter_latest (l : list sent) (n : nat) : list sent :=
-  firstn n (map snd (sort_desc fst (map (fun e => (sts_of e, e)) l))).
+  firstn n (map snd (sort_desc fst (map (fun e => (sts_of e, e)) (sdrop_compacted l)))).
 
 Inductive sfres := SFNone | SFFound (k : skey) (p : payload).
 Definition sfind_in (l : list sent) (req : string) : sfres :=
@@ -154,14 +166,18 @@ Record swriter := { sw_key : skey; sw_fd : option skey; sw_req : string }.
 Record sstate := { sst : sfs; swr : option swriter; scch : scache }.
 Definition s_init : sstate := {| sst := sfs_empty; swr := None; scch := [] |}.
 
-Definition mkkey (d stamp r8 : string) (c : bool) : skey := {| k_dag := d; k_stamp := stamp; k_r8 := r8; k_c := c |}.
-Definition twin (k : skey) : skey := mkkey (k_dag k) (k_stamp k) (k_r8 k) true.
-Definition rekey (d' : string) (k : skey) : skey := mkkey d' (k_stamp k) (k_r8 k) (k_c k).
+(* writer.open (32b069b): a torn last line is terminated before anything is appended *)
+Definition sopen (st : sfs) (k : skey) (now : Z) : list sprim :=
+  [SMkdir (k_dag k); SCreate k now]
+  ++ match sget st k with
+     | Some f => match ftail f with TNone => [] | _ => [SAppend k CNl now] end
+     | None => []
+     end.
 
 Definition sprims (o : op) (h : sstate) : list sprim :=
   let st := sst h in
   match o with
-  | OOpen d stamp req now => [SMkdir d; SCreate (mkkey d stamp (trunc8 req) false) now]
+  | OOpen d stamp req now => sopen st (mkkey d stamp (trunc8 req) false) now
   | OWrite tag size now =>
       match swr h with
       | Some w => match sw_fd w with
@@ -180,14 +196,16 @@ Definition sprims (o : op) (h : sstate) : list sprim :=
               | None => []
               | Some pl =>
                   let kc := twin (sw_key w) in
-                  [SMkdir (k_dag kc); SCreate kc now] ++ map (fun c => SAppend kc c now) (chunks_of pl) ++ [SUnlink (sw_key w)]
+                  let kt := tmpk kc in
+                  [SUnlink kt; SMkdir (k_dag kc); SCreate kt now] ++ map (fun c => SAppend kt c now) (chunks_of pl)
+                  ++ [SRename kt kc; SUnlink (sw_key w)]
               end
           end
       | None => []
       end
   | OUpdate d req tag size now =>
       match sq_find st d req with
-      | SFFound k _ => [SMkdir (k_dag k); SCreate k now]
+      | SFFound k _ => sopen st k now
                        ++ map (fun c => SAppend k c now) (chunks_of {| p_req := req; p_tag := tag; p_size := size |})
       | SFNone => []
       end
